@@ -236,6 +236,22 @@ def check(case, ctx):
     stream_it = name in STREAM and not mask[0]
     what = "zeroed %s rows %d..%d%s" % (p["sensors"], int(np.argmax(mask)), int(len(mask) - 1 - np.argmax(mask[::-1])), " (first sample)" if mask[0] else "")
     np.random.seed(12345)
+    if int(case.digest(), 16) % 4 == 0:
+        # the same faulted recording as raw integer counts (int64 arrays; gyroscope in units of 0.05 rad/s): validity only - refused with ValueError
+        # or survived with finite unit quaternions, never another exception
+        gi, ai, mi = np.round(gf * 20).astype(np.int64), np.round(af).astype(np.int64), np.round(mf).astype(np.int64)
+        ai[mask & ("a" in p["sensors"])] = 0
+        oi = call(run, name, gi, ai, mi, p["dip"])
+        if not oi.ok:
+            ctx.ok("an integer-typed recording with a dropout is refused with ValueError or survived", isinstance(oi.exc, ValueError),
+                   {"exc": "%s: %s" % (oi.exc_name, str(oi.exc)[:120]), "where": oi.where, "fault": what}, region=case.region + ":int:" + oi.exc_name)
+        else:
+            Qi = np.asarray(oi.value[0])
+            okq = Qi.dtype != object and Qi.shape == (len(g), 4) and bool(np.all(np.isfinite(np.asarray(Qi, float))))
+            ctx.ok("an integer-typed recording with a dropout yields finite quaternions, one per sample", okq, {"fault": what}, region=case.region + ":int")
+            if okq:
+                ctx.le("an integer-typed recording with a dropout yields unit quaternions", float(np.abs(np.linalg.norm(np.asarray(Qi, float), axis=1) - 1).max()), TOL_UNIT, {"fault": what},
+                       region=case.region + ":int")
     out = call(run, name, gf, af, mf, p["dip"])
     if stream_it:
         q0 = call(lambda: np.asarray(run(name, g[:2], a[:2], m[:2], p["dip"])[0][0], float))
